@@ -13,7 +13,7 @@ TARGET = {  # revert_* seeds: the property whose check must catch them
     'revert_769463e': 'C15', 'revert_e9309de': 'C15', 'revert_c583771': 'C20',
     'revert_b0eed93': 'C01', 'revert_ce6aec7': 'C15', 'revert_2f9dba4': 'C14',
     'revert_8e6a59f': 'C17', 'revert_f213336': 'C05', 'revert_235dd5b': 'C17',
-    'revert_4583095': 'C19', 'revert_639a63f': 'C08', 'revert_57f5d84': 'C15', 'revert_88dfe97': 'C02', 'revert_e8d267c': 'C16', 'revert_974b30f': 'C20', 'revert_7afc4b9': 'C11', 'revert_a0f3ca7': 'C07', 'revert_7aa8ebe': 'C13', 'revert_bd754f9': 'C18', 'revert_530ebdb': 'C18', 'revert_de7f375': 'C10', 'revert_13f2a0b': 'C02', 'revert_6899418': 'C10', 'revert_d7516b0': 'C16', 'revert_fce5fcc': 'C18', 'revert_167fe03': 'C07', 'revert_414c5ea': 'C15', 'revert_ea19384': 'C20', 'revert_dc9bac6': 'C15', 'revert_7336f23': 'C02', 'revert_1662911': 'C20', 'revert_acb4012': 'C20', 'revert_6a0a1a2': 'C10', 'revert_889f950': 'C09', 'revert_2e8b290': 'C14', 'revert_c94e0fc': 'C19', 'revert_31e8a33': 'C15', 'revert_31a851e': 'C06', 'revert_7bdfc3f': 'C15', 'revert_fd2208a': 'C13', 'revert_0d3e948': 'C14', 'revert_d71599b': 'C12', 'revert_22cd7b0': 'C15', 'revert_7e12235': 'C15', 'revert_4c33363': 'C15', 'revert_eba0fa0': 'C07', 'revert_2f8676f': 'C06', 'revert_375b49d': 'C12', 'revert_f732404': 'C01', 'revert_d83d52c': 'C14', 'revert_21d7399': 'C13', 'revert_65d5263': 'C15', 'revert_b94a2dd': 'C13', 'revert_06ccfdc': 'C07', 'revert_f9bd274': 'C10', 'revert_ae6b6dd': 'C07', 'revert_02848a1': 'C18', 'revert_96a7d5a': 'C10', 'revert_c0714e8': 'C18', 'revert_fec20b3': 'C02', 'revert_4287b90': 'C10', 'revert_0bd628a': 'C16', 'revert_c17a8ad': 'C13', 'revert_2ceeee9': 'C13', 'revert_9c4d0a2': 'C14', 'revert_7bf61be': 'C11', 'revert_9594bc4': 'C10', 'revert_bd2c00a': 'C20', 'revert_6a7ba84': 'C18', 'revert_0de5adf': 'C02', 'revert_8a42f6d': 'C13', 'revert_0200a77': 'C16', 'revert_8a9419d': 'C06', 'revert_6088189': 'C13', 'revert_d2ec20e': 'C20', 'revert_7f955a0': 'C13', 'revert_a2c87a0': 'C06', 'revert_d531043': 'C10', 'revert_13ac4da': 'C13', 'revert_47e1432': 'C07', 'revert_05392e9': 'C09', 'revert_35d3c7e': 'C02', 'revert_73d1096': 'C14', 'revert_eef6954': 'C16', 'revert_d3bd5f4': 'C16', 'revert_5ed4cfb': 'C15', 'revert_1b341b1': 'C20', 'revert_8c373b3': 'C13', 'revert_3c7ba26': 'C18', 'revert_3ae063b': 'C14', 'revert_265f63e': 'C13', 'revert_bb9603f': 'C13', 'revert_5b59e35': 'C01', 'revert_6229546': 'C01', 'revert_cc3d9f1': 'C07', 'revert_f746c4f': 'C07', 'revert_613e9f1': 'C16', 'revert_f2005a2': 'C19', 'revert_47d1a6f': 'C19',
+    'revert_4583095': 'C19', 'revert_639a63f': 'C08', 'revert_57f5d84': 'C15', 'revert_88dfe97': 'C02', 'revert_e8d267c': 'C16', 'revert_974b30f': 'C20', 'revert_7afc4b9': 'C11', 'revert_a0f3ca7': 'C07', 'revert_7aa8ebe': 'C13', 'revert_bd754f9': 'C18', 'revert_530ebdb': 'C18', 'revert_de7f375': 'C10', 'revert_13f2a0b': 'C02', 'revert_6899418': 'C10', 'revert_8b04ff7': 'C17', 'revert_d7516b0': 'C16', 'revert_fce5fcc': 'C18', 'revert_167fe03': 'C07', 'revert_414c5ea': 'C15', 'revert_ea19384': 'C20', 'revert_dc9bac6': 'C15', 'revert_7336f23': 'C02', 'revert_1662911': 'C20', 'revert_acb4012': 'C20', 'revert_6a0a1a2': 'C10', 'revert_889f950': 'C09', 'revert_2e8b290': 'C14', 'revert_c94e0fc': 'C19', 'revert_31e8a33': 'C15', 'revert_31a851e': 'C06', 'revert_7bdfc3f': 'C15', 'revert_fd2208a': 'C13', 'revert_0d3e948': 'C14', 'revert_d71599b': 'C12', 'revert_22cd7b0': 'C15', 'revert_7e12235': 'C15', 'revert_4c33363': 'C15', 'revert_eba0fa0': 'C07', 'revert_2f8676f': 'C06', 'revert_375b49d': 'C12', 'revert_f732404': 'C01', 'revert_d83d52c': 'C14', 'revert_21d7399': 'C13', 'revert_65d5263': 'C15', 'revert_b94a2dd': 'C13', 'revert_06ccfdc': 'C07', 'revert_f9bd274': 'C10', 'revert_ae6b6dd': 'C07', 'revert_02848a1': 'C18', 'revert_96a7d5a': 'C10', 'revert_c0714e8': 'C18', 'revert_fec20b3': 'C02', 'revert_4287b90': 'C10', 'revert_0bd628a': 'C16', 'revert_c17a8ad': 'C13', 'revert_2ceeee9': 'C13', 'revert_9c4d0a2': 'C14', 'revert_7bf61be': 'C11', 'revert_9594bc4': 'C10', 'revert_bd2c00a': 'C20', 'revert_6a7ba84': 'C18', 'revert_0de5adf': 'C02', 'revert_8a42f6d': 'C13', 'revert_0200a77': 'C16', 'revert_8a9419d': 'C06', 'revert_6088189': 'C13', 'revert_d2ec20e': 'C20', 'revert_7f955a0': 'C13', 'revert_a2c87a0': 'C06', 'revert_d531043': 'C10', 'revert_13ac4da': 'C13', 'revert_47e1432': 'C07', 'revert_05392e9': 'C09', 'revert_35d3c7e': 'C02', 'revert_73d1096': 'C14', 'revert_eef6954': 'C16', 'revert_d3bd5f4': 'C16', 'revert_5ed4cfb': 'C15', 'revert_1b341b1': 'C20', 'revert_8c373b3': 'C13', 'revert_3c7ba26': 'C18', 'revert_3ae063b': 'C14', 'revert_265f63e': 'C13', 'revert_bb9603f': 'C13', 'revert_5b59e35': 'C01', 'revert_6229546': 'C01', 'revert_cc3d9f1': 'C07', 'revert_f746c4f': 'C07', 'revert_613e9f1': 'C16', 'revert_f2005a2': 'C19', 'revert_47d1a6f': 'C19',
 }
 
 
